@@ -6,7 +6,7 @@ from symlib import *
 ID = "C16"
 COQ_FILES = symlib.COQ_FILES + ["Proofs/SymbolsSpec.v", "Props/C16.v", "Props/C16_repaired.v"]
 PROPS = "Props/C16_repaired.v" if REPAIRED else "Props/C16.v"
-THEOREMS_ASIS = ["C16_partition_equiv", "C16_collision_iff_reported", "C16_import_commutes",
+THEOREMS_ASIS = [
                  "C16_lock_discipline_refuted", "C16_model_race_witness",
                  "C16_lock_discipline_imports", "C16_model_drf_imports"]
 THEOREMS_REPAIRED = ["C16r_lock_discipline", "C16r_model_drf"]
@@ -45,6 +45,15 @@ def gen_part_case(rng, conc, spin=0):
     else:
         split = dict(base, mode="seq", ops=[{"op": "import", "f": i} for p in parts for i in p])
     return {"fs": fs, "top": top, "parts": parts, "together": together, "split": split, "conc": conc}
+
+
+def closure_of(fb, i, acc=None):
+    acc = set() if acc is None else acc
+    if i not in acc:
+        acc.add(i)
+        for d in fb[i]["deps"]:
+            closure_of(fb, d, acc)
+    return acc
 
 
 def results_of(out, mode):
@@ -133,37 +142,49 @@ def run(ctx):
         c, which, replay = meta[k]
         ctx.corr_break("symbols:part:" + which, replay, {"note": "has_collision / final lookups of the model differ from the observation"})
 
-    # the same property through whole compilations sharing a Symbols
+    # the same property through whole compilations sharing a Symbols.  Three runs per case: all files in one
+    # Compile; the parts one after another, later parts resolving already compiled files to those results
+    # (reuse); the parts (sequentially or concurrently) each compiling everything it needs from source
     ccases = []
     for k in range(ctx.budget(60, 1500)):
         c = gen_part_case(rng, conc=(k % 2 == 0), spin=(1 if k % 4 == 0 else 0))
         srcs = {"f%d.proto" % f["id"]: render_proto(f) for f in c["fs"]}
         base = {"mode": "compile", "sources": srcs, "unames": c["together"]["unames"], "uexts": c["together"]["uexts"]}
+        pp = [["f%d.proto" % i for i in p] for p in c["parts"]]
         ccases.append((c, dict(base, parts=[["f%d.proto" % i for i in c["top"]]], concurrent=False),
-                       dict(base, parts=[["f%d.proto" % i for i in p] for p in c["parts"]], concurrent=c["conc"], spin=c["split"].get("spin", 0))))
-    couts = ctx.impl("symbols", [x for c in ccases for x in (c[1], c[2])])
+                       dict(base, parts=pp, concurrent=False, reuse=True),
+                       dict(base, parts=pp, concurrent=c["conc"], spin=c["split"].get("spin", 0))))
+    couts = ctx.impl("symbols", [x for c in ccases for x in c[1:]])
     nother = 0
-    for k, (c, a, b) in enumerate(ccases):
-        oa, ob = couts[2 * k], couts[2 * k + 1]
-        if any("crash" in o or "panic" in o for o in (oa, ob)):
-            ctx.violation("panic", "compilation panicked or crashed", {"sources": a["sources"], "parts": b["parts"], "observed": [oa, ob]})
-            continue
-        ea = [r for r in oa["results"] if r["e"] != "ok"]
-        eb = [r for r in ob["results"] if r["e"] != "ok"]
-        if any(r["e"] == "other" for r in ea + eb):
-            nother += 1          # an error that is not a symbol / extension collision: outside the property
-            continue
-        ctx.count(("compile", json.dumps(a["sources"], sort_keys=True), json.dumps(b["parts"]), b["concurrent"]),
-                  len(b["parts"]) > 1 or bool(ea), "compile-" + ("collision" if ea else "clean"))
-        if bool(ea) != bool(eb):
-            ctx.violation("compile-partition-collision-mismatch",
-                          "compiling the files together reports %s collision, compiling them in parts sharing the Symbols reports %s"
-                          % ("a" if ea else "no", "a" if eb else "no"),
-                          {"sources": a["sources"], "together": a["parts"], "parts": b["parts"], "concurrent": b["concurrent"],
-                           "together_results": oa["results"], "parts_results": ob["results"]})
-        elif not ea and oa["look"] != ob["look"]:
-            ctx.violation("compile-partition-final-table-mismatch", "no collision, but the lookups differ",
-                          {"sources": a["sources"], "parts": b["parts"], "together_look": oa["look"], "parts_look": ob["look"]})
+    fbid = lambda c: {f["id"]: f for f in c["fs"]}
+    for k, (c, a, b1, b2) in enumerate(ccases):
+        oa = couts[3 * k]
+        for b, ob, mode in ((b1, couts[3 * k + 1], "reuse"), (b2, couts[3 * k + 2], "fromsource")):
+            if any("crash" in o or "panic" in o for o in (oa, ob)):
+                ctx.violation("panic", "compilation panicked or crashed", {"sources": a["sources"], "parts": b["parts"], "observed": [oa, ob]})
+                continue
+            ea = [r for r in oa["results"] if r["e"] != "ok"]
+            eb = [r for r in ob["results"] if r["e"] != "ok"]
+            if any(r["e"] == "other" for r in ea + eb):
+                nother += 1          # an error that is not a symbol / extension collision: outside the property
+                continue
+            ctx.count(("compile", mode, json.dumps(a["sources"], sort_keys=True), json.dumps(b["parts"]), b["concurrent"]),
+                      len(b["parts"]) > 1 or bool(ea), "compile-%s-%s" % (mode, "collision" if ea else "clean"))
+            cl = [set().union(*[closure_of(fbid(c), i) for i in p]) for p in c["parts"]]
+            shared = any(cl[i] & cl[j] for i in range(len(cl)) for j in range(i + 1, len(cl)))
+            replay = {"sources": a["sources"], "together": a["parts"], "parts": b["parts"], "concurrent": b["concurrent"],
+                      "reuse_compiled_files": mode == "reuse", "together_results": oa["results"], "parts_results": ob["results"]}
+            if bool(ea) != bool(eb):
+                key = "compile-partition-collision-mismatch"
+                what = ("compiling the files together reports %s collision, compiling them in parts sharing the Symbols reports %s"
+                        % ("a" if ea else "no", "a" if eb else "no"))
+                if mode == "fromsource" and shared and eb and not ea:
+                    key = "shared-dependency-recompiled"
+                    what += " (a file needed by two parts is compiled by both; its second descriptor collides with the first)"
+                ctx.violation(key, what, replay)
+            elif not ea and oa["look"] != ob["look"]:
+                ctx.violation("compile-partition-final-table-mismatch", "no collision, but the lookups differ",
+                              dict(replay, together_look=oa["look"], parts_look=ob["look"]))
     ctx.extra["compile_cases_with_other_errors"] = nother
 
     # race detector shard: concurrent imports and lookups on one table
